@@ -148,6 +148,12 @@ pub(crate) fn leaves(utf8_mode: bool, leaves: &[Leaf]) {
             let mut h = String::new();
             hir_sexpr(leaf.pattern.hir(), &mut h);
             let props = leaf.pattern.hir().properties();
+            let cbtxt = match &leaf.callback {
+                Some(crate::leaf::Callback::Label(ts)) => ts.to_string().replace(' ', ""),
+                Some(crate::leaf::Callback::Inline(_)) => "<inline>".to_string(),
+                None => String::new(),
+            };
+            writeln!(c, "leafcb {i} {}", hex(cbtxt.as_bytes())).unwrap();
             writeln!(
                 c,
                 "leaf {i} {kind} prio={} cb={} lit={} isutf8={} minlen={} default_prio={} greedy_all={} src={} hir={h}",
